@@ -1,16 +1,13 @@
 (** * C14: no [dyn] / [Box] in what the macro adds unless dynamic dispatch was requested *)
 From Coq Require Import List String Ascii Bool Arith Lia.
-From Entrait Require Import Tok Syn Opts Split FnParams Convert Codegen Expand Proj Proj2 Proj3.
+From Entrait Require Import Tok Syn Opts Split FnParams Convert Codegen Expand Proj Proj2 Proj3 ProjSide.
 From Entrait.Proofs Require Import Base Shapes PFnParams PC16 PC01 PC05 PC19.
 Import ListNotations.
 Local Open Scope string_scope.
 Local Open Scope list_scope.
 
-Definition NB : list string := ["dyn"; "Box"].
-
 (** a token list that does not mention [dyn] / [Box]; an identifier that is neither *)
 Definition cl (ts : toks) : Prop := mentions NB ts = false.
-Definition name_ok (s : string) : bool := negb (str_mem s NB).
 
 (** ** [mentions] *)
 Lemma mentions_tt_TG d inner : mentions_tt NB (TG d inner) = mentions NB inner.
@@ -170,9 +167,6 @@ Proof.
 Qed.
 
 (** ** one analysed function: emitted names, output, asyncness *)
-Definition names_ok_sig (nd : bool) (s : sig) : bool :=
-  name_ok (s_name s) && forallb name_ok (somes (map desired_name (forwarded_src_args nd s))).
-
 Lemma somes_app {A} (l1 l2 : list (option A)) : somes (l1 ++ l2) = somes l1 ++ somes l2.
 Proof. induction l1 as [|[x|] l1 IH]; cbn [app somes]; rewrite ?IH; reflexivity. Qed.
 
@@ -234,8 +228,6 @@ Qed.
 (** ** the attributes of the generated trait *)
 Lemma export_gated_cl o p : cl p -> cl (export_gated o p).
 Proof. intros H. unfold export_gated. destruct (export_value o); [exact H|]. clt. Qed.
-
-Definition api_ok (api : option string) : bool := match api with Some a => name_ok a | None => true end.
 
 Lemma unimock_params_cl' api im fns :
   api_ok api = true -> (im = MRawTrait \/ Forall (fun tf => cl (unmock_entry tf)) fns) -> cl (unimock_params api im fns).
@@ -336,45 +328,7 @@ Proof.
 Qed.
 
 (** ** side conditions: the user's own identifiers and tokens that end up in the scanned regions *)
-Definition c14_fn_side (o : opts) (h : head) (sigs : list sig) : bool :=
-  forallb (names_ok_sig (no_deps_value o)) sigs &&
-  (negb (unimock_value o) || api_ok (o_mock_api o)) &&
-  negb (existsb (mentions NB) (filter is_trait_sub (h_attrs h))).
-
-(** concrete dependencies: the impl block's first parameter and self type are the user's *)
-Definition c14_concrete_side (nd : bool) (s : sig) : bool :=
-  negb (is_concrete (deps_kind nd s)) ||
-  (negb (mentions NB (match lifted_params (s_gen s) with p :: _ => print_gparam p | [] => [] end)) &&
-   negb (mentions NB (print_fty (strip_refs (first_ty s))))).
-
-Definition c14_trait_side (a : trait_attr) (h : head) (t : item_trait) : bool :=
-  name_ok (t_name t) && forallb name_ok (map gp_name (p_items (g_params (t_gen t)))) &&
-  (match ta_impl_trait a with Some it => name_ok it | None => true end) &&
-  (match ta_delegate a with Some (ByTrait d) => name_ok d | _ => true end) &&
-  forallb (fun '(_, s) => name_ok (s_name s) && forallb name_ok (plain_names (p_items (s_inputs s)))) (trait_sigs t) &&
-  (negb (unimock_value (ta_opts a)) || api_ok (o_mock_api (ta_opts a))) &&
-  negb (existsb (mentions NB) (filter is_mock_attr (h_attrs h))).
-
-Definition c14_side (c : ctx) : bool :=
-  match x_input c with
-  | InFn h s _ =>
-      match fn_opts c with
-      | Some o => c14_fn_side o h [s] && c14_concrete_side (no_deps_value o) s
-      | None => true
-      end
-  | InMod h _ _ _ _ =>
-      match fn_opts c, source_fns (x_input c) with
-      | Some o, Some src => c14_fn_side o h (map sig_of src)
-      | _, _ => true
-      end
-  | InImpl _ _ _ _ _ _ =>
-      match source_fns (x_input c) with
-      | Some src => forallb (names_ok_sig false) (map sig_of src)
-      | None => true
-      end
-  | InTrait h t => match trait_attr_of c with Some a => c14_trait_side a h t | None => true end
-  | _ => true
-  end.
+(** [ProjSide.c14_side] and its parts *)
 
 (** ** fn / mod: the regions *)
 Lemma impl_t_param_cl bv : cl (print_gparam (impl_t_param bv)).
@@ -409,9 +363,6 @@ Proof.
   - apply Forall_app. split; [rewrite Hfns; exact C1|]. apply trait_attrs_cl; assumption.
   - rewrite trait_sigs_outs. apply rewritten_cl. apply Forall2_map_r. exact C3.
 Qed.
-
-Lemma good_na : good na.
-Proof. unfold good. cbn. discriminate. Qed.
 
 Lemma good_decided_cl regions : Forall cl regions -> good (decided (negb (existsb (mentions ["dyn"; "Box"]) regions)) regions).
 Proof.
@@ -701,4 +652,11 @@ Proof.
   destruct (expand_items VEntrait [TId "Foo"] c14_cex_input2) as [items| | |] eqn:E; try (vm_compute in E; discriminate E).
   exists items. split; [reflexivity|]. vm_compute in E. injection E as <-.
   intros G. destruct (G eq_refl) as [_ G2]. vm_compute in G2. discriminate G2.
+Qed.
+
+(** the guarded view the checker runs *)
+Lemma c14_view v attr i items :
+  expand_items v attr i = Ok items -> good (view_C14g (mkCtx v attr i) items).
+Proof.
+  intros H. unfold view_C14g. destruct (c14_side (mkCtx v attr i)) eqn:E; [exact (c14_view_partial _ _ _ _ H E) | exact good_na].
 Qed.
